@@ -146,8 +146,9 @@ def run_bdd_hist(res, rd, name, cases):
         fails.append((None, 0, reasons, e2))
     res.report_fails(fails, os.path.join(vlib.OUT, "viol"))
     res.checker_cmds.append("vdrive run %s; TRACE=<shard> tlc -config TraceBdd.cfg TraceBdd.tla (POSTCONDITION TraceAccepted)" % os.path.basename(cf))
-    if v["unvalidated_shards"]:
+    if v["unvalidated_shards"] and not res.violations:
         raise vlib.Broken("too many rejected histories to finish validation")
+    res.extra["shards_not_fully_validated_after_rejections"] = v["unvalidated_shards"]
 
 
 def check_C08(tier, seed, res, replay=None):
